@@ -146,7 +146,7 @@ def run(ctx):
         'claimed about an object while a writer is open on it, nor about two writers open on one object; operations are still issued one at a '
         'time (interleaved, not parallel)',
         'listing order is not part of the property: results are compared as sets, duplicates are reported',
-        'an object is written in one of three ways: Write calls (two halves; two empty Writes for empty data), NewWriter+Close with no Write call '
+        'an object is written in one of five ways: Write calls in three chunkings (two halves; a short head, a long body and a one-byte tail; many 7-byte writes and the rest), NewWriter+Close with no Write call '
         '(empty data only), storage.Copy from a source object in another FS bucket; the result must be the same',
         'constructed names: the handlers of telemetrygodev (/, /charts/, /data/, /upload/) are served over recording BucketHandles on the routes of '
         'newHandler rebuilt by the harness; a name is judged only if newHandler answers the same request with the same status; worker handlers '
